@@ -153,7 +153,7 @@ fn nesting_depth(t: &Term) -> u32 {
 }
 
 pub fn run(ctx: &Ctx) {
-    ctx.set_rule("generated sort-correct term trees over every exported constructor (depth <= 6, filler-steered body sizes around 63/64 and 4095/4096 at every nesting level) are built as real nested crate objects, serialised, and parsed back by an independent recursive-descent parser (opcode table from the specification; told only the arity of invoked method names); the parse must consume all bytes, every length-delimited object must end exactly where its last child ends, and the parse tree must equal the normal form of the built tree (integers by value, EISA/UUID by decoded identity, operands in specification order). Directed: every length-prefixed kind with bodies sweeping 0..4200 (all sizes in thorough) and 2^20 +- 8. Non-trivial = tree with >= 2 levels of length-prefixed nesting; distinct by hash.");
+    ctx.set_rule("generated sort-correct term trees over every exported constructor (depth <= 6, filler-steered body sizes around 63/64 and 4095/4096 at every nesting level) are built as real nested crate objects, serialised, and parsed back by an independent recursive-descent parser (opcode table from the specification; told only the arity of invoked method names); the parse must consume all bytes, every length-delimited object must end exactly where its last child ends, and the parse tree must equal the normal form of the built tree (integers by value, EISA/UUID by decoded identity, operands in specification order). Directed: every length-prefixed kind with bodies sweeping 0..4200 (all sizes in thorough) and 2^20 +- 8. Non-trivial = tree with >= 2 levels of length-prefixed nesting; distinct by hash. Package / PackageBuilder with 0..17, 63, 64, 127, 128, 253, 254, 255 elements; builders are re-used after refused elements (Arg7/Local8, the 256th element) and serialised before they are complete; every tree is serialised after a discarded serialisation and through several sinks.");
     ctx.assume("trees are sort-correct AML (data objects, expressions, targets, package elements in their grammatical positions); method-call names carry their arity, which is the only thing the parser is told");
     // directed: sized objects
     let sizes = boundary_sizes(!ctx.quick());
